@@ -439,6 +439,13 @@ func runRace(cs *Case) (w *World) {
 		}
 		_ = i
 	}
+	for _, st := range cs.Steps {
+		if st.Kind == "createsort" {
+			if err := c.CreateSortIndex(st.Sort.Name, st.Sort.Col); err != nil {
+				panic(err)
+			}
+		}
+	}
 	// a snapshot other threads restore into their own collections
 	var presnap bytes.Buffer
 	if err := c.Snapshot(&presnap); err != nil {
@@ -749,6 +756,9 @@ func raceBody(c *column.Collection, cols []ColSpec, stable []uint32, tp *ThreadP
 						txn.Count()
 					}
 				case "ascend":
+					// (no yield inside the callback: the scan holds the b-tree's own lock, which belongs to a
+					// dependency and is not a scheduling point; the race detector orders by happens-before,
+					// not by overlap in time)
 					txn.Ascend(op.Col, func(idx uint32) {})
 				}
 				rYield(ptBetween)
